@@ -11,6 +11,8 @@ pub mod c06;
 pub mod c07;
 pub mod c08;
 pub mod c09;
+pub mod c10;
+pub mod td_common;
 pub mod c16;
 
 macro_rules! dispatch {
@@ -24,6 +26,7 @@ macro_rules! dispatch {
             "C07" => c07::$f($ctx $(, $arg)*),
             "C08" => c08::$f($ctx $(, $arg)*),
             "C09" => c09::$f($ctx $(, $arg)*),
+            "C10" => c10::$f($ctx $(, $arg)*),
             "C16" => c16::$f($ctx $(, $arg)*),
             other => {
                 let msg = format!("no monitor for property {}", other);
